@@ -21,6 +21,10 @@ CHECKS["C14"] = dict(level="exploration", design="3/C14",
    technique="TLC-evaluated oracle (CtHelpers.tla) over recorded executions of the real helpers on exhaustive small and structured operands",
    text="Every call of sodium_memcmp/compare/is_zero/increment/add/sub/memzero and crypto_verify_16/32/64 made by the driver is judged by TLC against exact definitions (equality, little-endian order decided by the most significant differing byte, carry/borrow folds modulo 2^(8 len)): exhaustive 1-byte operands, a 16^4 class product and 60000 random 2-byte operands, and for each length 0..70 (130) single-bit and single-byte differences at every position, carry/borrow chains of every length, seam patterns for the 8/12/24/64-byte assembly paths, all 16 alignments, in the native (asm), noasm and portable builds. It is an input sweep with an independent oracle, not a proof over all operands.",
    note="Trusted: TLC and the driver's projection; only the executed operand pairs are decided.")
+CHECKS["C17"] = dict(level="model_checking", design="3/C17",
+   technique="TLC exhaustive model checking of GuardedAlloc.tla (scaled page) + trace validation (TLC) of real malloc/mprotect/probe/free executions with the real page size",
+   text="TLC explores every allocation size 0..3 pages+1 (page 32, canary 16), every sequence of up to 4 protection changes and probes and free, and checks the layout invariants for all sizes (user end = guard page start, canary adjacent and inside the first data page so that free/mprotect recover the data pages, rounding), that an access past the end faults under every protection, that protections apply to the whole user region, and that free terminates the process exactly when a canary byte was altered. The real library is then driven through scripted scenarios (all sizes around every page boundary up to 3 pages, every protection sequence up to length 2 (4 thorough), real read/write probes caught by a SIGSEGV handler, canary tampering, free in a forked child, oversize and overflowing requests) and every recorded event - layout read from /proc/self/maps, fill byte, probe outcome, termination - is validated against the same specification instantiated with page size 4096.",
+   note="Trusted: TLC, /proc/self/maps as the observation of protections, fork/wait as observation of termination. mlock/madvise are not observed. x86-64 Linux only.")
 NOT_YET = {}
 def main():
     props = [json.loads(l) for l in open(os.path.join(HERE, "properties.jsonl"))]
